@@ -100,11 +100,20 @@ DivSmallR(a, k, i, r, acc) ==
          IN  DivSmallR(a, k, i - 1, t % k, <<t \div k>> \o acc)
 DivSmall(a, k) == Norm(DivSmallR(a, k, Len(a), 0, <<>>))
 
-\* little-endian byte sequence (or any base-`radix` digit sequence, most significant LAST) -> BigNat
+\* little-endian byte sequence -> BigNat.  Limb j holds bits [LBits*j, LBits*(j+1)) of the number; they lie
+\* in at most three consecutive bytes (LBits <= 15), which are combined natively (below 2^24).
+ByteAt(bytes, q) == IF q <= Len(bytes) THEN bytes[q] ELSE 0
+LimbOfBytes(bytes, j) ==
+    LET q == (LBits * j) \div 8 + 1
+        r == (LBits * j) % 8
+    IN  ((ByteAt(bytes, q) + 256 * ByteAt(bytes, q + 1) + 65536 * ByteAt(bytes, q + 2)) \div (2 ^ r)) % LB
+FromBytesLE(bytes) ==
+    Norm([j \in 1..((8 * Len(bytes) + LBits - 1) \div LBits) |-> LimbOfBytes(bytes, j - 1)])
+\* the same by Horner's rule (any radix <= 2^16; most significant digit LAST); used to cross-check FromBytesLE
 RECURSIVE FromDigitsLER(_, _, _, _)
 FromDigitsLER(d, radix, i, acc) ==
     IF i = 0 THEN acc ELSE FromDigitsLER(d, radix, i - 1, AddSmall(MulSmall(acc, radix), d[i]))
-FromBytesLE(bytes) == FromDigitsLER(bytes, 256, Len(bytes), <<>>)
+FromBytesHorner(bytes) == FromDigitsLER(bytes, 256, Len(bytes), <<>>)
 \* decimal digit sequence, most significant FIRST (digit values 0..9)
 RECURSIVE FromDecR(_, _, _)
 FromDecR(d, i, acc) ==
